@@ -126,6 +126,12 @@ def check(ctx):
             nc = ctx.narrowing_casts(b)
             ctx.expect_sites(f"3.count-compared-untruncated{sfx}", [f"line {s.get('line')}: {src} as {dst}" for _, s, src, dst in nc], exactly=0,
                              what="value-truncating integer cast in validate_transactions (the length must be compared at full width)")
+            # the same for conversions that narrow by call: try_from / try_into with a fallback, min / clamp of the length
+            o_len = Origins(b, 2)
+            lossy = [c for c in b.calls if c.bb in b.live and c.name in ("try_from", "try_into", "min", "clamp", "unwrap_or", "unwrap_or_default", "unwrap_or_else", "saturating_sub") and
+                     any(atom_match(o_len.atoms(a), "call:[T]::len") or atom_match(o_len.atoms(a), "call:*::len") for a in c.args)]
+            ctx.expect_sites(f"3.length-not-narrowed-by-conversion{sfx}", lossy, exactly=0,
+                             what="narrowing / saturating conversion of transactions.len() before it is compared with the header's count (a body longer than u16::MAX would match a saturated count)")
             g = ctx.one_call(b, f"{HDR}::generate_txns_root")
             ctx.arg_origin(f"3.root-of-given-transactions{sfx}", g, 0, "param:2", depth=0)
             eqs = ctx.rel_tests(b, "Eq") or []
